@@ -615,3 +615,77 @@ def expr_root(e, depth=0):
             continue
         return None
     return None
+
+
+def expr_leaf_locals(e, out=None, depth=0):
+    """locals at the leaves of an expression tree (not through calls' own bodies, but through their
+    arguments)"""
+    from ..expr import E, call_arg_exprs
+    if out is None:
+        out = set()
+    if e is None or depth > 24:
+        return out
+    if e.k == "local":
+        out.add(e.a)
+        return out
+    if e.k == "call":
+        for a in call_arg_exprs(e.a):
+            expr_leaf_locals(a, out, depth + 1)
+        return out
+    for x in (e.a, e.b, e.c):
+        if isinstance(x, E):
+            expr_leaf_locals(x, out, depth + 1)
+        elif isinstance(x, (list, tuple)):
+            for y in x:
+                if isinstance(y, E):
+                    expr_leaf_locals(y, out, depth + 1)
+    return out
+
+
+def cost_conversion(prog):
+    """The crate's cost conversion (opslimit: u64, memlimit: usize) -> the (t, m) pair handed to
+    Argon2, returned as a tuple or as a small private record: (function, {field name as it appears in
+    a projection ('0'/'1' or 't_cost'/'m_cost'): 't' | 'm'}).  The roles are read off the returned
+    aggregate: the component computed from parameter 1 is t, the one computed from parameter 2 is m."""
+    if getattr(prog, "_cost_conv", None) is not None:
+        return prog._cost_conv
+    from ..expr import expr_of_local, ADTS
+    best = (None, {})
+    for g in prog.fns:
+        if g.kind == "closure" or g.argc != 2 or g.locals[1].get("t") != "u64" or g.locals[2].get("t") != "usize":
+            continue
+        e = expr_of_local(g, 0)
+        if e is None or e.k != "agg" or not e.c or len(e.c) < 2:
+            continue
+        if e.a == "tuple":
+            names = [str(i) for i in range(len(e.c))]
+        else:
+            vs = ADTS.get(e.a, {}).get("variants", [])
+            if len(vs) != 1 or len(vs[0]["fields"]) != len(e.c):
+                continue
+            names = [fd["name"] for fd in vs[0]["fields"]]
+        roles = {}
+        for nm, comp in zip(names, e.c):
+            ls = expr_leaf_locals(comp) & {1, 2}
+            if ls == {1}:
+                roles[nm] = "t"
+            elif ls == {2}:
+                roles[nm] = "m"
+        if sorted(roles.values()) == ["m", "t"]:
+            best = (g, roles)
+    prog._cost_conv = best
+    return best
+
+
+def conv_component(prog, e):
+    """'t' / 'm' if e (casts peeled) is a component of the result of a call to the cost conversion,
+    with that call; else (None, None)"""
+    g, roles = cost_conversion(prog)
+    x = e
+    while x is not None and x.k == "cast":
+        x = x.a
+    if g is None or x is None or x.k != "field" or x.a.k != "call":
+        return None, None
+    if not any(t.key == g.key for t in prog.callee_fns(x.a.a)):
+        return None, None
+    return roles.get(str(x.b).split(".")[-1]), x.a.a
